@@ -231,6 +231,33 @@ def jobs_default():
         return 16
 
 
+class debug_logging:                                    # pylint: disable=invalid-name
+    """Context manager: the application has switched logging to DEBUG (root and the whole
+    `plotink` logger tree) - a module-level setting a user may legitimately change.  Records go
+    to a null handler; levels and handlers are restored on exit."""
+
+    def __enter__(self):
+        import logging                                  # pylint: disable=import-outside-toplevel
+        self._logging = logging
+        self._null = logging.NullHandler()
+        names = [""] + [n for n in logging.root.manager.loggerDict if n.startswith("plotink")]
+        if "plotink" not in names:
+            names.append("plotink")
+        self._saved = []
+        for name in names:
+            logger = logging.getLogger(name) if name else logging.getLogger()
+            self._saved.append((logger, logger.level))
+            logger.setLevel(logging.DEBUG)
+        logging.getLogger().addHandler(self._null)
+        return self
+
+    def __exit__(self, *exc):
+        for logger, level in self._saved:
+            logger.setLevel(level)
+        self._logging.getLogger().removeHandler(self._null)
+        return False
+
+
 def quiet_legacy_logger():
     """Route plotink.ebb_serial's logger into a counting sink (no stderr noise)."""
     import logging                                      # pylint: disable=import-outside-toplevel
